@@ -4,6 +4,7 @@ import (
 	"fmt"
 	"go/ast"
 	"go/types"
+	"strings"
 )
 
 func (x *Exec) evalConversion(call *ast.CallExpr, to types.Type, st *St, fr *Frame, k kval) {
@@ -221,6 +222,11 @@ func (x *Exec) callProtocol(call *ast.CallExpr, fv *Val, st *St, fr *Frame, k kv
 	if fv.Proto == "" {
 		oos("call of an unknown function value at %s (no protocol attached)", x.W.pos(call.Pos()))
 	}
+	if !strings.HasPrefix(fv.Proto, "protocol.") {
+		x.streamCall(call, fv, st, fr, k)
+		return
+	}
+	fv = &Val{T: fv.T, Ty: fv.Ty, Proto: strings.TrimPrefix(fv.Proto, "protocol.")}
 	c := x.W.CS.ByKey["protocol."+fv.Proto]
 	if c == nil {
 		oos("unknown protocol %s", fv.Proto)
@@ -283,6 +289,28 @@ func (x *Exec) callProtocol(call *ast.CallExpr, fv *Val, st *St, fr *Frame, k kv
 }
 
 func (x *Exec) rangeIter(n *ast.RangeStmt, st *St, fr *Frame, k func(*St)) {
+	handled := false
+	func() {
+		defer func() {
+			if r := recover(); r != nil {
+				if _, ok := r.(outOfSubset); ok && x.C != nil && x.C.Flags["partial"] {
+					return
+				}
+				panic(r)
+			}
+		}()
+		x.eval(n.X, st, fr, func(st *St, rv *Val) {
+			if strings.HasPrefix(rv.Proto, "stream.") {
+				handled = true
+				x.rangeStream(n, rv, st, fr, k)
+				return
+			}
+			oos("range over an iterator function without a stream protocol at %s", x.W.pos(n.Pos()))
+		})
+	}()
+	if handled {
+		return
+	}
 	if x.C != nil && x.C.Flags["partial"] {
 		// the contract declares this function only partially covered: the path through the iterator loop is abandoned
 		x.Notes = append(x.Notes, "UNCOVERED PATH: range over an iterator function at "+x.W.pos(n.Pos())+" (contract is marked partial)")
